@@ -10,7 +10,22 @@ import hashlib
 _WS = ' \t\n\r'
 
 
+_MEMO = {}
+
+
 def tokenize(text):
+    """Token sequence of a text (memoised for the few texts seen last: the
+    command model and the recorder tokenise the same candidate)."""
+    r = _MEMO.get(text)
+    if r is None:
+        r = _tokenize(text)
+        if len(_MEMO) >= 8:
+            _MEMO.pop(next(iter(_MEMO)))
+        _MEMO[text] = r
+    return r
+
+
+def _tokenize(text):
     toks = []
     i = 0
     n = len(text)
@@ -84,6 +99,30 @@ def tree_tokens(exprs):
             st.append(None)
             st.extend(reversed(d))
     return tuple(out)
+
+
+def tree_both(exprs):
+    """(tree_tokens, tree_struct) of a node list in one traversal."""
+    toks = []
+    out = []
+    st = [exprs] if hasattr(exprs, 'data') else list(reversed(exprs))
+    while st:
+        e = st.pop()
+        if e is None:
+            out.append(')')
+            toks.append(')')
+            continue
+        d = e.data
+        if isinstance(d, str):
+            out.append('L' + d)
+            if d and d[0] != ';':
+                toks.append(d)
+        else:
+            out.append('(')
+            toks.append('(')
+            st.append(None)
+            st.extend(reversed(d))
+    return tuple(toks), tuple(out)
 
 
 def tree_struct(exprs):
